@@ -90,6 +90,26 @@ def run_long(case) -> dict:
                 if viol:
                     break
             probes["long_run_calls"] = k + 1
+        if viol is None and case.get("kek"):
+            # the key-identifier nonce of nonce mode (one L2 key, i.e. one ~10 h interval, many protects): GroupKeyEnvelope.new_kek()
+            import uuid as _uuid
+
+            import dpapi_ng._gkdi as dg
+            from ref import gkdi as rg
+
+            env = dg.GroupKeyEnvelope(version=1, flags=2, l0=361, l1=3, l2=5, root_key_identifier=_uuid.UUID(int=case["seed"]), kdf_algorithm="SP800_108_CTR_HMAC",
+                                      kdf_parameters=rg.pack_kdf_params("SHA256"), secret_algorithm="DH", secret_parameters=b"", private_key_length=512, public_key_length=2048,
+                                      domain_name="domain.test", forest_name="domain.test", l1_key=b"\x11" * 64, l2_key=b"\x22" * 64)
+            infos = {}
+            for k in range(case["kek"]):
+                _kek, kid = env.new_kek()
+                v = bytes(kid.key_info)
+                if v in infos:
+                    viol = common.violation("C19", "reuse", "long-run", "key-info", "", "nonce",
+                                            f"key identifier nonce of new_kek() call {k} equals that of call {infos[v]} ({v.hex()[:24]}...{v.hex()[-8:]}) in a run of {case['kek']} calls under one L2 key")
+                    break
+                infos[v] = k
+            probes["long_run_key_identifier_nonces"] = 1
     return {"viol": viol, "digest": f"long:{case['n']}:{bool(viol)}", "key": common.key_hash(case), "fired": {"entropy_draws": world.entropy.counter}, "probes": probes, "vtime_ns": 0}
 
 
@@ -228,13 +248,13 @@ class C19(common.Check):
             "after a protect and parent and child both go on protecting, and histories whose key position alternates (clock stepping between two "
             "intervals and back, two root keys used in turn), histories in which the application re-seeds Python's global PRNG with the same value "
             "before every call, public-key replies whose PublicKeyLength field is 0 / 8 / 2^32-1, histories in which the blob an earlier protect returned is protected again, "
-            "histories under a /dev/urandom that returns EOF or short reads to whoever opens it as a file, histories in which one or two asyncio tasks each protect several times in a row, alternating between the async API and the blocking API called from inside the coroutine, runs of 300 000 (thorough: 10^6) consecutive calls of the key / nonce generator, histories run in a child interpreter with assertions compiled out (PYTHONOPTIMIZE=1), histories in which os.urandom starts raising (the child's entropy source is re-keyed, buffered state is shared). From each emitted blob the "
+            "histories under a /dev/urandom that returns EOF or short reads to whoever opens it as a file, histories in which one or two asyncio tasks each protect several times in a row, alternating between the async API and the blocking API called from inside the coroutine, runs of 300 000 (thorough: 10^6) consecutive calls of the key / nonce generator and 250 000 of new_kek() under one L2 key, single protects of 1 MiB+17 and 3 MiB+5 bytes, histories run in a child interpreter with assertions compiled out (PYTHONOPTIMIZE=1), histories in which os.urandom starts raising (the child's entropy source is re-keyed, buffered state is shared). From each emitted blob the "
             "reference extracts GCM nonce and key_info and recovers the CEK; all must be pairwise distinct within the history. "
             "Non-trivial = history with >= 2 successful protects; distinct = distinct plan.")
     components = {"client": "real (public API, KeyCache, _encrypt_blob, cek_generate, new_kek)", "entropy": "simulated (os.urandom and AESGCM.generate_key seams, ledger)",
                   "clock": "simulated, frozen", "DC": "model (RefDC)", "security context": "stub (StubCtx)", "blob opener": "model (ref.cms/ref.gkdi)"}
     assumptions = ["the simulated entropy source never repeats a draw; real-world collision probability of fresh 96/256-bit values is outside the claim"]
-    required_fired = ("mode_pub", "mode_nonce", "provenance_ok", "forked_histories", "alternating_positions", "thread_histories", "thread_overlap", "app_reseed_histories", "odd_length_field_histories", "reprotect_histories", "entropy_device_fault_histories", "entropy_source_failure_histories", "histories_with_assertions_compiled_out", "task_chain_histories", "long_runs")
+    required_fired = ("mode_pub", "mode_nonce", "provenance_ok", "forked_histories", "alternating_positions", "thread_histories", "thread_overlap", "app_reseed_histories", "odd_length_field_histories", "reprotect_histories", "entropy_device_fault_histories", "entropy_source_failure_histories", "histories_with_assertions_compiled_out", "task_chain_histories", "long_runs", "long_run_key_identifier_nonces", "plaintext_over_1MiB")
 
     def cases(self, tier, seed):
         rng = prng.stream(seed, "C19")
@@ -244,7 +264,14 @@ class C19(common.Check):
         # containers and frozen applications): one child interpreter per case
         # very long runs of the key / nonce generator itself (a nonce with few fresh bits repeats within them)
         for k in range(2 if tier == "quick" else 16):
-            out.append({"kind": "long-run", "n": 300_000 if tier == "quick" else 1_000_000, "seed": 77 + k, "ops": [], "root_keys": [[0, "SHA256", "DH"]]})
+            out.append({"kind": "long-run", "n": 300_000 if tier == "quick" else 1_000_000, "seed": 77 + k, "ops": [], "root_keys": [[0, "SHA256", "DH"]],
+                        "kek": (250_000 if tier == "quick" else 600_000) if k % 2 == 0 else 0})
+        # one protect of more than 1 MiB (and then some): whatever the content encryption does in pieces, the reference must open the blob
+        for k, size in enumerate(((1 << 20) + 17, 3 * (1 << 20) + 5) if tier == "quick" else ((1 << 20) + 17, 3 * (1 << 20) + 5, (1 << 21), 5 * (1 << 20) + 1)):
+            out.append({"seed": 900 + k, "clock_ft": 133_000_000_000_000_000 + k, "root_keys": [[k % 5, offline.HASHES[k % 4], "DH"]], "caller_sids": [offline.SID_A],
+                        "ctx": {"kind": "stub", "legs": 2, "sig": 16}, "kind": "big-plaintext",
+                        "ops": [{"op": "load_key", "rk": 0}, {"op": "protect", "fl": ("sync", "async")[k % 2], "sid": offline.SID_A, "rk": 0, "net": "offline", "data": size},
+                                {"op": "protect", "fl": "sync", "sid": offline.SID_A, "rk": 0, "net": "offline", "data": 16}]})
         rng2 = prng.stream(seed, "C19", "optimize")
         for i in range(40 if tier == "quick" else 1200):
             pl = gen_plan(rng2, i, tier)
@@ -308,6 +335,8 @@ class C19(common.Check):
             probes["app_reseed_histories"] = 1
         if case.get("kind") == "task-chain":
             probes["task_chain_histories"] = 1
+        if case.get("kind") == "big-plaintext":
+            probes["plaintext_over_1MiB"] = 1
         if case.get("kind") == "pub-reply-odd-length-field":
             probes["odd_length_field_histories"] = 1
         if case.get("kind") == "threads":
